@@ -663,13 +663,18 @@ func (h *harness) startRun() {
 				if p := recover(); p != nil {
 					msg := fmt.Sprint(p)
 					out["msg"] = msg
+					_, isRuntime := p.(runtime.Error)
 					switch {
 					case p == (sentinel{}):
 						out["panic"] = "sentinel"
 					case strings.Contains(msg, "already been run"):
-						out["panic"] = "already"
+						out["panic"] = "already" // the documented refusal
+					case strings.Contains(msg, "could not listen on address"):
+						fatal(3, "port taken between allocation and use (not a verdict): %s", msg)
+					case isRuntime:
+						out["panic"] = "other" // e.g. close of closed channel
 					default:
-						out["panic"] = "other"
+						out["panic"] = "refused" // a deliberate panic(error) with another wording
 					}
 				}
 			}()
